@@ -664,7 +664,7 @@ def tree_json_ids(x):
 PROBES = [
     "a | a", "|", "[a b]...", "[......]...", "[a...]...", "[[a b]...]", "[[......]...]", "[[a...]...]", "a", "²", "a ²", "١ a", "a b, c -> (a + b) c", "[...] ...", "[[a]] a",
     "(a -> b) c, d", "(a , b) (c -> d)", "(a, b) (c, d, e)", "a -> b -> c", "(a + (b -> c))", "[] + a", "( [] + a)", "a ( -> b", "a...", "a ...",
-    "......", "(a b)...", "((a + b))", "((a + b) + c)", "[a, b] c", "a [b [c]] d", "01 1", "",
+    "......", "(a b)...", "((a + b))", "((a + b) + c)", "((a + b) -> c)", "((a + b), c)", "[a, b] c", "a [b [c]] d", "01 1", "",
 ]
 
 
